@@ -174,10 +174,83 @@ func c03Cases(tier string, seed int64) []core.Case {
 	}
 	for _, dotu := range []bool{true, false} {
 		dotu := dotu
+		cases = append(cases, core.Case{ID: fmt.Sprintf("tversion-under-an-ordinary-tag/dotu=%v", dotu), Run: func(ctx *core.Ctx) core.Result { return c03VersionTagged(ctx, dotu) }})
+	}
+	for _, dotu := range []bool{true, false} {
+		dotu := dotu
 		cases = append(cases, core.Case{ID: fmt.Sprintf("largest-requests/dotu=%v", dotu), Run: func(ctx *core.Ctx) core.Result { return c03LargestRequests(ctx, dotu) }})
 	}
 	cases = append(cases, sharedFlushCases("C03", tier)...)
 	return cases
+}
+
+// c03VersionTagged: a Tversion is a request like any other as far as replies go: sent under an ordinary tag (clients
+// are told they should use NOTAG, the message is well-formed either way) it gets exactly one Rversion carrying that
+// tag — at the start of a connection, and later with other requests outstanding (which the renegotiation cancels:
+// they get no reply, and no reply of theirs may come afterwards).
+func c03VersionTagged(ctx *core.Ctx, dotu bool) core.Result {
+	var res core.Result
+	ver := "9P2000"
+	if dotu {
+		ver = "9P2000.u"
+	}
+	for round, vtag := range []uint16{5, 0, 0xFFFE, wire.NOTAG, 77} {
+		ctx.Beat()
+		s := NewSess(Config{Dotu: dotu, Msize: 8192, Maxpend: []int{0, 4}[round%2]})
+		c := s.Dial()
+		det := map[string]interface{}{"tag": vtag, "dotu": dotu}
+		// at the start of the connection
+		_ = c.Send(&wire.Msg{Type: wire.Tversion, Tag: vtag, Msize: 8192, Version: ver})
+		res.Evals++
+		rp, err := c.WaitTag(vtag, W)
+		if err != nil || rp.Msg == nil || rp.Msg.Type != wire.Rversion {
+			res.Violate("C03;tversion-tagged;no-reply;first", fmt.Sprintf("a Tversion sent under tag %d as the first message of a connection got %v", vtag, rp), det)
+			c.Hangup()
+			continue
+		}
+		// later, with two requests held in the implementation
+		if a, err := c.Rpc(&wire.Msg{Type: wire.Tattach, Tag: 1, Fid: 1, Afid: wire.NOFID, Uname: "root", Nuname: 0}, W); err != nil || a.Msg == nil || a.Msg.Type != wire.Rattach {
+			res.Inconclusive = "c03 version: attach failed"
+			c.Hangup()
+			return res
+		}
+		var gates []chan struct{}
+		for i := 0; i < 2; i++ {
+			p := script.NewPlan()
+			p.Gate, p.Entered = make(chan struct{}), make(chan struct{})
+			gates = append(gates, p.Gate)
+			s.Ops.SetPlan(c.ID, uint16(200+i), p)
+			_ = c.Send(&wire.Msg{Type: wire.Tstat, Tag: uint16(200 + i), Fid: 1})
+			select {
+			case <-p.Entered:
+			case <-time.After(W):
+				res.Inconclusive = "c03 version: held request never started"
+				c.Hangup()
+				return res
+			}
+		}
+		_ = c.Send(&wire.Msg{Type: wire.Tversion, Tag: vtag, Msize: 4096, Version: ver})
+		res.Evals++
+		rp, err = c.WaitTag(vtag, W)
+		if err != nil || rp.Msg == nil || rp.Msg.Type != wire.Rversion {
+			res.Violate("C03;tversion-tagged;no-reply;mid-session", fmt.Sprintf("a Tversion sent under tag %d with two requests outstanding got %v", vtag, rp), det)
+		}
+		for _, g := range gates {
+			close(g)
+		}
+		c.Quiesce(W)
+		time.Sleep(2 * time.Millisecond)
+		for _, extra := range c.Pending() {
+			if extra.Msg != nil {
+				res.Violate("C03;tversion-tagged;surplus-reply", fmt.Sprintf("after the Tversion under tag %d: surplus reply %s", vtag, extra.Msg.String()), det)
+				break
+			}
+		}
+		res.Sig(fmt.Sprintf("tversion-tagged|%v|%d", dotu, vtag))
+		c.Hangup()
+	}
+	res.Sample(map[string]interface{}{"scenario": "Tversion under tags 5, 0, 0xFFFE, NOTAG, 77: first message and mid-session", "dotu": dotu})
+	return res
 }
 
 // c03LargestRequests: requests whose strings pad them to exactly the negotiated msize (the largest message the
